@@ -145,7 +145,7 @@ theorem T_C05 (v : Variant) (attr : Toks) (item : Item) (out : Out)
             subst this
             constructor
             · simp [depsWithGenerics, liftedParams, hdc]
-            · intro q hq; simpa [depsWithGenerics] using hq
+            · intro q hq; simp [depsWithGenerics] at hq; exact hq.1
           have hl : ∀ q ∈ liftedParams false f.sig, q.isLifetime = false := by
             intro q hq
             simp only [liftedParams, List.mem_filter, Bool.and_eq_true, Bool.not_eq_true'] at hq
